@@ -77,6 +77,18 @@ Theorem C02_code_imapu_set : forall (s : istate pv) (job i : Z) (obj : pv),
 Proof. exact gen_uset_eq. Qed.
 Print Assumptions C02_code_imapu_set.
 
+(* independence of handles, structurally: IMapIterator.__init__ creates its
+   containers and scalars per instance (nothing mutable lives on the class), so a
+   fresh iterator is the model's imap_init -- which is why the theorems below may
+   treat every handle on its own *)
+Theorem C02_code_imap_init :
+    IM.fresh_containers_per_instance = true /\
+    IM.class_level_mutable_attrs = 0%nat /\
+    IM.unordered_inherits_init = true /\
+    forall job : Z, IM.init (PInt job) = embi imap_init job.
+Proof. exact gen_imap_init_eq. Qed.
+Print Assumptions C02_code_imap_init.
+
 (* ---------------- chunking ---------------- *)
 
 Theorem C02_chunks_concat : forall (A : Type) (l : list A) (k : nat),
